@@ -886,3 +886,95 @@ pub fn gen_c07(sink: &mut Sink, thorough: bool, seed: u64) {
     }
     sink.notes.push("every case is run twice in-process with String and with u32 package names; the check script re-runs the whole request file in two fresh processes and compares all outputs byte for byte".into());
 }
+
+// ------------------------------------------------------------------ package types with a degenerate Hash
+
+/// a package name whose `Hash` is legal but collides massively (it feeds only the parity of the length):
+/// `Eq` still distinguishes all names.  Nothing in the solver may identify packages by their hash.
+#[derive(Clone, Debug, PartialEq, Eq, PartialOrd, Ord)]
+pub struct WeakPkg(pub String);
+impl std::hash::Hash for WeakPkg {
+    fn hash<H: std::hash::Hasher>(&self, h: &mut H) {
+        (self.0.len() % 2).hash(h)
+    }
+}
+impl std::fmt::Display for WeakPkg {
+    fn fmt(&self, f: &mut std::fmt::Formatter<'_>) -> std::fmt::Result {
+        write!(f, "{}", self.0)
+    }
+}
+struct WeakProvider {
+    entries: BTreeMap<(String, u32), Result<Vec<(String, VS)>, String>>,
+    newest: bool,
+    calls: std::cell::Cell<u32>,
+}
+impl DependencyProvider for WeakProvider {
+    type P = WeakPkg;
+    type V = u32;
+    type VS = VS;
+    type M = String;
+    type Priority = u64;
+    type Err = std::convert::Infallible;
+    fn prioritize(&self, p: &WeakPkg, s: &VS) -> u64 {
+        let n = self.entries.keys().filter(|(q, v)| *q == p.0 && s.contains(v)).count() as u64;
+        1000 - n
+    }
+    fn choose_version(&self, p: &WeakPkg, s: &VS) -> Result<Option<u32>, Self::Err> {
+        self.calls.set(self.calls.get() + 1);
+        if self.calls.get() > 20_000 {
+            panic!("call budget exceeded (more than 20000 choose_version calls)");
+        }
+        let m: Vec<u32> = self.entries.keys().filter(|(q, v)| *q == p.0 && s.contains(v)).map(|x| x.1).collect();
+        Ok(if self.newest { m.last().copied() } else { m.first().copied() })
+    }
+    fn get_dependencies(&self, p: &WeakPkg, v: &u32) -> Result<Dependencies<WeakPkg, VS, String>, Self::Err> {
+        Ok(match self.entries.get(&(p.0.clone(), *v)) {
+            None => Dependencies::Unavailable("unknown".into()),
+            Some(Err(m)) => Dependencies::Unavailable(m.clone()),
+            Some(Ok(ds)) => Dependencies::Available(ds.iter().map(|(q, s)| (WeakPkg(q.clone()), s.clone())).collect()),
+        })
+    }
+}
+
+/// `weak|<registry>|<rv>|<newest 0/1>` : resolve over package names with a colliding `Hash`; direct oracles only
+/// (validity of `Ok`, a search for a solution on `NoSolution`, no panic / Failure), each counted for its property
+pub fn eval_weak(req: &str, reg_s: &str, rv: u32, newest: bool) -> Case {
+    let reg: crate::solver::Registry<VS> = crate::solver::Registry::from_text(reg_s);
+    let prov = WeakProvider { entries: reg.entries.clone(), newest, calls: Default::default() };
+    let prop = crate::eval::CURRENT_PROP.with(|p| p.borrow().clone());
+    let res = crate::solver::watched(req.to_string(), || std::panic::catch_unwind(std::panic::AssertUnwindSafe(|| resolve(&prov, WeakPkg("root".into()), rv))));
+    let mut fail = None;
+    let imp = match res {
+        Err(e) => {
+            let msg = e.downcast_ref::<String>().cloned().or_else(|| e.downcast_ref::<&str>().map(|s| s.to_string())).unwrap_or("?".into());
+            if matches!(prop.as_str(), "C05" | "C17") {
+                fail = Some(format!("resolve panicked with package names whose Hash collides: {}", msg.replace('\n', " ")));
+            }
+            "panic".to_string()
+        }
+        Ok(Ok(sol)) => {
+            let sel: crate::solver::Sel = sol.into_iter().map(|(p, v)| (p.0, v)).collect();
+            if let Err(e) = crate::solver::is_solution(&reg, "root", rv, &sel) {
+                if matches!(prop.as_str(), "C01" | "C17") {
+                    fail = Some(format!("with package names whose Hash collides the returned solution is not valid: {}", e));
+                }
+            }
+            format!("ok {:?}", sel)
+        }
+        Ok(Err(PubGrubError::NoSolution(_))) => {
+            if let Some(Some(sel)) = crate::solver::search_solution(&reg, "root", rv, 200_000) {
+                if matches!(prop.as_str(), "C02" | "C06" | "C17") {
+                    fail = Some(format!("with package names whose Hash collides resolve reports NoSolution although {:?} is a solution", sel));
+                }
+            }
+            "nosolution".to_string()
+        }
+        Ok(Err(e)) => {
+            if matches!(prop.as_str(), "C05" | "C17") {
+                fail = Some(format!("resolve returned an error for a well-behaved provider: {:?}", e).chars().take(300).collect());
+            }
+            "error".to_string()
+        }
+    };
+    Case { req: req.to_string(), imp, nontrivial: true, oracle_fail: fail, tags: vec!["colliding_package_hash"] }
+}
